@@ -70,6 +70,9 @@ def step (st : DState) (line : String) : DState × String × String :=
     else if fam == "conc" then (st, "race=0 panic=0 deadlock=0 rt=1 final=1", "race=0 panic=0 deadlock=0 rt=1 final=1")
     else if fam == "trav" then let r := famTrav kv; (st, r.1, r.2)
     else if fam == "extract" then let r := famExtract kv; (st, r.1, r.2)
+    -- the built binary (own argument handling, -p, error clean-up): containment is what C17 states for
+    -- every input (extract_contained), so that is what the model answers
+    else if fam == "extractcli" then (st, "outside=same", "outside=same")
     else if fam == "cli" then let r := famCli H kv; (st, r.1, r.2)
     else if fam == "root" then
       -- C18: the CID `car root` prints = the single root in the header = the root the engine built
